@@ -308,6 +308,13 @@ def run(ctx):
             ctx.violation(f)
             return
 
+    f = core.run_random(ctx, random_shard, 6000, 40000)
+    if f is not None:
+        ctx.violation(f)
+
+
+def random_shard(st, shard, nshards, payload):
+    from hypothesis import strategies as hs
     @hs.composite
     def anytree(draw, d):
         if d <= 0:
@@ -349,6 +356,6 @@ def run(ctx):
                             return f
         return None
 
-    f = core.run_hypothesis(ctx, anytree(5), body, ctx.pick(2000, 20000))
+    f = core.hyp_run(payload['seed'] * 1000 + shard, anytree(5), body, payload['n'])
     if f is not None:
-        ctx.violation(f)
+        st.failure = f
